@@ -820,6 +820,7 @@ pub fn buildx_line(input: &[u8], o: Opts) -> String {
 }
 fn gen_c10(out: &mut Out, rng: &mut Rng, thorough: bool) {
     crate::unitops::gen_aligned(out, rng, thorough, false);
+    crate::unitops::gen_banded(out, rng, thorough, false);
     let caps = caps();
     let stride = if thorough { 1 } else { 37 };
     let mut lens: Vec<usize> = (0..=8000).step_by(stride).collect();
@@ -1310,6 +1311,7 @@ fn gen_c11(out: &mut Out, rng: &mut Rng, thorough: bool) {
     crate::unitops::gen_squares(out, rng, thorough);
     crate::unitops::gen_ratio_steps(out, rng, thorough);
     crate::unitops::gen_aligned(out, rng, thorough, true);
+    crate::unitops::gen_banded(out, rng, thorough, true);
     gen_selecth(out, rng, thorough);
     let caps = caps();
     // payloads where two candidates tie (at the minimum first): the selection among equals
